@@ -9,6 +9,7 @@ from cashews import LockedError
 from cashews._typing import Key, OnRemoveCallback, Value
 from cashews.backends.interface import NOT_EXIST, UNLIMITED, Backend
 from cashews.backends.memory import Memory
+from cashews.utils import Bitarray
 
 _empty = object()
 _GLOBAL_LOCK_KEY = ":serializable:lock"
@@ -124,6 +125,10 @@ class TransactionBackend(Backend):
         value = await self._backend.get(key, default=_empty)
         if value is _empty:
             return
+        if isinstance(value, Bitarray):
+            # bit fields are not buffered (get_bits / incr_bits go straight to the backend): a snapshot taken here
+            # would be written back at commit over the increments made in the meantime
+            return await self._backend.expire(key, timeout)
         await self._local_cache.set(key, value, expire=timeout)
 
     # non transaction - proxy methods with custom logic
